@@ -24,7 +24,8 @@ EXPLANATION = (
     "sequences): "
     "The module is parsed, never imported.  H2Connection and H2Stream become model objects whose methods are the repository's own functions (interpreted over the "
     "AST); the h2 state machine, the priority tree, the reactor, the transport and the body producers are small synchronous checker models.  Decided by running "
-    "finite schedules and comparing with an oracle: (a) one turn of _sendPrioritisedData for every chunk length 0..6, max frame size 0..4 and window -3..4: at most "
+    "finite schedules and comparing with an oracle (plus, structurally: the stream a turn serves is defined only by next(self.priority) in that turn - no stream identity survives a "
+    "wait, so a stream torn down meanwhile cannot kill the loop; the bound of a frame is min(max frame size, window), floored at 0): (a) one turn of _sendPrioritisedData for every chunk length 0..6, max frame size 0..4 and window -3..4: at most "
     "one DATA frame, never longer than min(max frame, window), `sent + requeued-at-the-front` is the chunk, END_STREAM only for the sentinel; the negative-window "
     "cases were F29 (fixed: the bound is floored at zero; the revert is a mutant); (b) the loop always continues: after a data / end-of-stream turn it re-schedules itself once, on deadlock it parks on a fresh "
     "Deferred that re-enters it, behind a paused transport it waits on _consumerBlocked, after stopProducing it stops; (c) whole-response schedules over one and two "
@@ -34,7 +35,7 @@ EXPLANATION = (
     "inlined) the stream's queue is known non-empty.  Not decided: liveness under arbitrary reactor schedules, byte equality at a real peer."
 )
 RULE_KINDS = {
-    "clamp/send-within-bound": "structural", "loop/continues-structural": "structural", "backpressure/blocked-guard": "structural", "backpressure/resume-guard": "structural",
+    "clamp/send-within-bound": "structural", "loop/continues-structural": "structural", "loop/stream-chosen-this-turn": "structural", "backpressure/blocked-guard": "structural", "backpressure/resume-guard": "structural",
     "wakeup/unblock-only-with-data": "structural",
     "clamp/frame-within-window": "finite-exhaustive", "clamp/negative-window": "finite-exhaustive", "clamp/end-after-data": "finite-exhaustive", "backpressure/remaining-window": "finite-exhaustive",
     "loop/": "bounded", "schedule/": "bounded", "wakeup/": "bounded", "queue/": "bounded", "backpressure/": "bounded",
@@ -390,8 +391,36 @@ def _s_backpressure_guards(ctx):
     ctx.check(truth_guard(g, n, "self._producerProducing", False), "backpressure/resume-guard", q + " | only if paused", "resumeProducing() is not confined to a paused producer")
 
 
+def _s_stream_fresh(ctx):
+    """STRUCTURAL (def-use): the stream a turn of the send loop serves was chosen by the priority tree IN THAT TURN.  Every name used as the stream key (index of the per-stream
+    queues, stream argument of the h2 connection) is defined in the function only by `next(self.priority)` (or the None placeholder before it) - never by a parameter, an
+    attribute or anything else that survives from an earlier turn: between two turns any stream can be torn down, and a turn that indexes the queues with a dead stream raises,
+    so the loop is never rescheduled and every other stream stalls"""
+    f = norm_method(ctx, H2, C, "_sendPrioritisedData", keep=KEEP_CONN)
+    q = Q + C + "._sendPrioritisedData"
+    keys = set()
+    for n in walk_local(f):
+        if isinstance(n, ast.Subscript) and src(n.value) == "self._outboundStreamQueues" and isinstance(n.slice, ast.Name):
+            keys.add(n.slice.id)
+        if isinstance(n, ast.Call) and call_name(n) in ("self.conn.send_data", "self.conn.end_stream", "self.conn.local_flow_control_window") and n.args and isinstance(n.args[0], ast.Name):
+            keys.add(n.args[0].id)
+    if not keys:
+        raise Abstain("no stream key found in the send loop")
+    a = f.args
+    params = {x.arg for x in a.args + a.kwonlyargs + getattr(a, "posonlyargs", [])} | ({a.vararg.arg} if a.vararg else set()) | ({a.kwarg.arg} if a.kwarg else set())
+    for k in sorted(keys):
+        defs = _defs(f, k)
+        other = [d for d in defs if not ((isinstance(d, ast.Constant) and d.value is None) or (isinstance(d, ast.Call) and call_name(d) == "next" and [src(x) for x in d.args] == ["self.priority"]))]
+        ok = k not in params and not other and any(isinstance(d, ast.Call) for d in defs)
+        why = (f"`{k}` is a parameter of the loop function" if k in params else f"`{k}` is also defined by `{src(other[0])}`" if other else f"`{k}` is never taken from the priority tree")
+        ctx.check(ok, "loop/stream-chosen-this-turn", q + f" | stream key `{k}`",
+                  f"{why}: a stream chosen in an EARLIER turn is served after the loop waited (behind the transport / a Deferred); if that stream was reset or finished meanwhile the turn "
+                  "raises KeyError, the loop is never rescheduled and all other streams stall although their windows are open")
+
+
 def check(ctx):
-    for name, fn in (("s-window-guards", lambda c: structural(c, "clamp/send-within-bound", "clamp/frame-within-window (finite-exhaustive evaluation)", _s_window_guards, c)),
+    for name, fn in (("s-stream-fresh", lambda c: structural(c, "loop/stream-chosen-this-turn", "loop/continues (bounded)", _s_stream_fresh, c)),
+                     ("s-window-guards", lambda c: structural(c, "clamp/send-within-bound", "clamp/frame-within-window (finite-exhaustive evaluation)", _s_window_guards, c)),
                      ("s-backpressure-guards", lambda c: structural(c, "backpressure/blocked-guard", "backpressure/* scenarios (bounded)", _s_backpressure_guards, c)),
                      ("clamp", _clamp), ("loop", _loop_continues), ("schedules", _schedules), ("backpressure", _backpressure), ("unblock-sites", _unblock_sites)):
         with ctx.section(name):
@@ -780,6 +809,11 @@ def _unblock_sites(ctx):
 
 
 MUTANTS = [
+    Mutant("stream-remembered-across-turns-in-an-attribute", H2, "        stream = None\n\n        while stream is None:", "        stream = self.__dict__.pop(\"_turnStream\", None)\n\n        while stream is None:",
+           expect_rule="loop/stream-chosen-this-turn"),
+    Mutant("stream-handed-to-the-next-turn-as-argument", H2, "    def _sendPrioritisedData(self, *args):", "    def _sendPrioritisedData(self, *args, stream=None):",
+           more=[(H2, "        stream = None\n\n        while stream is None:", "        while stream is None:")], expect_rule="loop/stream-chosen-this-turn"),
+    Mutant("clamp-ignores-the-frame-size-limit", H2, "        maxFrameSize = max(\n            0, min(self.conn.max_outbound_frame_size, remainingWindow)\n        )", "        maxFrameSize = max(0, remainingWindow)"),
     Mutant("clamp-dropped", H2, "            if len(frameData) > maxFrameSize:\n                excessData = frameData[maxFrameSize:]\n                frameData = frameData[:maxFrameSize]\n                self._outboundStreamQueues[stream].appendleft(excessData)\n", ""),
     Mutant("clamp-ignores-window", H2, "        maxFrameSize = max(\n            0, min(self.conn.max_outbound_frame_size, remainingWindow)\n        )", "        maxFrameSize = self.conn.max_outbound_frame_size"),
     Mutant("revert-F29-negative-window-not-floored", H2, "        maxFrameSize = max(\n            0, min(self.conn.max_outbound_frame_size, remainingWindow)\n        )",
